@@ -32,6 +32,7 @@ Definition must_report (os : list occ) (roots : list string) (o : occ) : bool :=
   is_read_position o &&
   match o_bind o with
   | OGlobal => negb (in_roots (t_name (o_tok o)) roots) && negb (global_target (t_name (o_tok o)) false os)
+  | OVarargNone => true     (* `...` inside a function that has no vararg parameter: nothing binds it *)
   | _ => false
   end.
 
